@@ -173,6 +173,7 @@ Step ==
            /\ chist' = CASE e.ev = "Reload" /\ Blind(e) -> Append(chist, e.re)
                          [] e.ev \in {"Commit", "Reload"} -> Append(chist, e.live)
                          [] e.ev = "Restart" -> <<e.live>>
+                         [] e.ev = "GC" /\ Len(chist) > 0 -> <<chist[Len(chist)]>>   \* collected roots cannot be reopened
                          [] OTHER -> chist
            /\ flive' = IF e.ev = "Flush" THEN clive ELSE flive
            /\ unc' = IF e.ev \in {"Commit", "Reload", "Restart"} THEN {} ELSE unc \cup {e.ev}
@@ -184,7 +185,7 @@ Step ==
                             [] e.ev \in {"Reload", "Restart"} -> mtag \ {"copied"}
                             [] OTHER -> mtag
            /\ txopen' = CASE e.ev \in {"Finalise", "Root", "Commit", "Reload", "CopySwap", "End", "Restart"} -> FALSE
-                           [] e.ev \in {"Copy", "Flush", "GC", "ReloadOld", "AddRecordOther"} -> txopen
+                           [] e.ev \in {"Copy", "Flush", "GC", "ReloadOld", "AddRecordOther", "ReadRecord"} -> txopen
                            [] OTHER -> TRUE
            /\ taint' = (taint \/ (e.ev = "CopySwap" /\ CopyEq(e) # {}) \/ Reopen(e) # {} \/ BlindCopy(e) # {} \/ DiskReopen(e) # {} \/ OldReopen(e) # {})
            /\ fired' = [fired EXCEPT !.BlindCopies = @ + (IF e.ev = "Reload" /\ Blind(e) /\ "orig" \in DOMAIN e THEN 1 ELSE 0),
